@@ -136,8 +136,14 @@ def handle_rejects(run, prop, rejects, tp, classes, stack, all_rejects, cap=25):
 
 def wrapper_random(run, prop, classes, n, all_rejects):
     """Free-running seeded scenarios over every constructor (configuration, defaults, deprecated constructors, pools)."""
-    out, _ = run.go("^TestWrapperRandom$", env={"VERIF_N": n}, timeout=900)
+    out, _ = run.go("^(TestWrapperRandom|TestSubMilli)$", env={"VERIF_N": n}, timeout=900)
     tp = os.path.join(out, "wrapper_trace.ndjson")
+    # queue limiters on a clock of 100 microsecond units (time-outs and releases off the whole milliseconds); their trace numbers
+    # follow the random scenarios'
+    with open(tp, "a") as f:
+        for x in vlib.read_ndjson(os.path.join(out, "submilli_trace.ndjson")):
+            x["trace"] += 1000000
+            f.write(json.dumps(x, separators=(",", ":")) + "\n")
     rejects, total = validate_sharded(run, "WrapperTrace", "Wrapper_trace.cfg", tp)
     run.events += total
     stats = {"scenarios": 0, "handoffs": 0, "refusals": 0, "grants_after_sleep": 0, "allserved_scenarios": 0, "ctors": {}}
